@@ -17,6 +17,7 @@ import AgeModel.Concrete
 import AgeModel.File
 import Proofs.GoTieNative
 import Proofs.GoTiePrims
+import Proofs.GoTieSshRsa
 namespace AgeModel
 namespace Tie.C05
 open SpecConsts
@@ -199,6 +200,29 @@ theorem headerMAC_tie (P : Prims) {κ η : Type} (E : GoTie.MacEnv P κ η) (fk 
 theorem streamKey_tie (P : Prims) {κ η : Type} (E : GoTie.MacEnv P κ η) (fk nonce : Bytes) :
     Extracted.age_streamKey E.H E.R fk nonce = .ok (streamKey P fk nonce) :=
   GoTie.streamKey_tie P E fk nonce
+
+/-! The SSH recipients (agessh/agessh.go), translated on every run: the ssh-ed25519 stanza — tag,
+ephemeral share, tweak = HKDF(no secret, salt = the key's wire form, label), the tweaked shared
+secret (error of the second scalar multiplication dropped, as in the source), HKDF salt = ephemeral
+share ‖ recipient point — and the ssh-rsa stanza — the tag as the only argument, OAEP-SHA256 under
+the label — are the model's `wrapSshEd` / `wrapSshRsa` (`GoTie.SshEnv`, `GoTie.RsaEnv` state what
+is assumed of the primitives, of `ssh.PublicKey.Marshal` and of `sshFingerprint`). -/
+
+theorem sshEd_wrap_tie (P : Prims) {κ π : Type} (E : GoTie.SshEnv P κ π) (key : π) (mont fk tape : Bytes) :
+    ∃ res, Extracted.agessh_Ed25519Recipient_Wrap (GoTie.tapeRead E.eRand) E.X P.basepoint E.H E.Mar E.R E.Fp E.Enc E.Seal ⟨key, mont⟩ fk tape = .ok res ∧
+      match wrapOne P (.sshEd (E.wire key) mont) fk tape with
+      | .error () => res = ([], some E.eRand, tape)
+      | .ok (some (ss, ls), t) => res = (ss.map GoTie.toGoStanza, none, t) ∧ ls = []
+      | .ok (none, t) => res = ([], some E.eX, t) :=
+  GoTie.sshEd_wrap_tie P E key mont fk tape
+
+theorem sshRsa_wrap_tie (P : Prims) {π β γ : Type} (E : GoTie.RsaEnv P π β γ) (key : π) (pub : β) (fk tape : Bytes) :
+    ∃ res, Extracted.agessh_RSARecipient_Wrap E.Fp E.EncO ⟨key, pub⟩ fk tape = .ok res ∧
+      match wrapOne P (.sshRsa (E.wire key) (E.pubOf pub)) fk tape with
+      | .error () => res = ([], some E.eRand, tape)
+      | .ok (some (ss, ls), t) => res = (ss.map GoTie.toGoStanza, none, t) ∧ ls = []
+      | .ok (none, t) => res = ([], some E.eEnc, t) :=
+  GoTie.sshRsa_wrap_tie P E key pub fk tape
 
 end Tie.C05
 end AgeModel
